@@ -387,7 +387,7 @@ pub fn check(ctx: &Ctx) -> Check {
             name: "histories",
             rule: "random call histories (next/len/size_hint/clone) on view::Iter, AxisIter, IndicesIter, FrequenciesIter over random shapes (1..5 axes, lengths 1..5), interpreted against the expected item list; non-trivial = >=2 calls of next() after exhaustion; distinct by (shape, iterator, history)",
             cases: ctx.tier.pick(20_000, 400_000),
-            strategy: history_strategy(5),
+            strategy: Box::new(|| history_strategy(5).boxed()),
             eval: Box::new(eval_history),
         }),
     ];
